@@ -480,7 +480,7 @@ pub fn property() -> Property {
     Property {
         id: "C03",
         level: "exploration",
-        rule: "generated: 1-6 rules biased to loops (bounded counters, always-true increments, flag toggles that re-enable each other, chains, random typed-core rules over the same int/flag fields), each no-loop with probability 1/4, distinct saliences, x stores of 3 objects x max_cycles in 0..=64 (mass on 0..3, 1, 64), timeout None; loaded through GRLParser (part parser) or as identical Rule values (part api). Oracle: returns (monitor watchdog 120 s); cycle_count <= max_cycles; rules_fired = callbacks; REF multi-pass interpreter with no-loop: exact firing sequence, store after every firing, number of passes, final store; when stopped before the bound, REF re-evaluates every still-eligible rule on the engine's own final facts (fixpoint). Part `reuse`: 2-3 execute calls (alternating execute_with_callback / execute) on ONE engine and fact store, rules with activation groups and possibly one rule whose action fails (execute returns Err mid-pass), a fact tweaked before each call; judged per call: returns, cycle_count <= max_cycles, rules_fired = callbacks, and fixpoint on the final facts whenever the call stopped before the bound. Non-trivial: reaches the bound while still firing, or >= 3 passes, or max_cycles in {0,1} with a rule whose condition is true; distinct by (program, store, max_cycles). Part `agenda`: C02's rule generator (2-7 API-built rules with salience, enabled, no-loop, lock-on-active, agenda group, activation group, dates, flag conditions, SetFlag / ActivateAgendaGroup actions), max_cycles in {1,2,3,4,6,8,12}, histories of 3-8 steps (execute in three entry points, set_agenda_focus, reset_no_loop_tracking, enable/disable, flag flips); no trace is predicted: the eligibility state (no-loop flags, rules locked in the current activation of their group) is rebuilt from the firings the engine itself reports and judged on the engine's own final facts and focus: cycle_count <= max_cycles, rules_fired = firings, nothing fired => at most one cycle, and a call that stops before the bound leaves no eligible rule with a true condition. Non-trivial there: stopped before the bound after more firings than rules, or after an action re-activated a group in which a lock-on-active rule had fired. Part reuse, knowledge-base replacement (1 case in 4 with >= 2 rules, drawn last): the engine starts on a knowledge base without the last rule and with the first rule disabled (n changes) and before a later call the caller assigns a freshly built knowledge base holding all n rules (n changes: same name, same version number) through knowledge_base_mut(); the fixpoint clause is judged against the rules the engine holds during each call.",
+        rule: "generated: 1-6 rules biased to loops (bounded counters, always-true increments, flag toggles that re-enable each other, chains, random typed-core rules over the same int/flag fields), each no-loop with probability 1/4, distinct saliences, x stores of 3 objects x max_cycles in 0..=64 (mass on 0..3, 1, 64), timeout None; loaded through GRLParser (part parser) or as identical Rule values (part api). Oracle: returns (monitor watchdog 120 s); cycle_count <= max_cycles; rules_fired = callbacks; REF multi-pass interpreter with no-loop: exact firing sequence, store after every firing, number of passes, final store; when stopped before the bound, REF re-evaluates every still-eligible rule on the engine's own final facts (fixpoint). Part `reuse`: 2-3 execute calls (alternating execute_with_callback / execute) on ONE engine and fact store, rules with activation groups and possibly one rule whose action fails (execute returns Err mid-pass), a fact tweaked before each call; judged per call: returns, cycle_count <= max_cycles, rules_fired = callbacks, and fixpoint on the final facts whenever the call stopped before the bound. Non-trivial: reaches the bound while still firing, or >= 3 passes, or max_cycles in {0,1} with a rule whose condition is true; distinct by (program, store, max_cycles). Part `agenda`: C02's rule generator (2-7 API-built rules with salience, enabled, no-loop, lock-on-active, agenda group, activation group, dates, flag conditions, SetFlag / ActivateAgendaGroup actions), max_cycles in {1,2,3,4,6,8,12}, histories of 3-8 steps (execute in three entry points, set_agenda_focus, reset_no_loop_tracking, enable/disable, flag flips); no trace is predicted: the eligibility state (no-loop flags, rules locked in the current activation of their group) is rebuilt from the firings the engine itself reports and judged on the engine's own final facts and focus: cycle_count <= max_cycles, rules_fired = firings, nothing fired => at most one cycle, and a call that stops before the bound leaves no eligible rule with a true condition. Non-trivial there: stopped before the bound after more firings than rules, or after an action re-activated a group in which a lock-on-active rule had fired. Part reuse, knowledge-base replacement (1 case in 4 with >= 2 rules, drawn last): the engine starts on a knowledge base without the last rule and with the first rule disabled (n changes) and before a later call the caller assigns a freshly built knowledge base holding all n rules (n changes: same name, same version number) through knowledge_base_mut(); the fixpoint clause is judged against the rules the engine holds during each call. In part reuse the two entry points alternate from a case-dependent start, so a replacement of the knowledge base can lie between two calls of the same entry point.",
         assumptions: vec!["REF (typed.rs) is the trusted reference".into(), "termination judged by the 120 s watchdog of the monitor process".into()],
         parts: vec![
             Part { name: "parser", run, quick: Budget::Random { cases: 20_000, bytes: 400 }, thorough: Budget::Random { cases: 200_000, bytes: 400 }, min_nontrivial_pct: 30 },
